@@ -25,7 +25,8 @@ Step(op, u, a, b) ==
               touch |-> Addressed(op, u, a)]
   /\ Do(op, u, a, b)
 
-Args(op) == CASE op \in {"set", "rpush"}                  -> Vals \X {0}
+Args(op) == CASE op \in {"set", "rpush", "jset"}          -> Vals \X {0}
+              [] op \in {"bitset", "pfadd"}               -> Subs \X {0}
               [] op \in {"hset", "zadd"}                   -> Subs \X Vals
               [] op \in {"hdel", "sadd", "srem", "zrem"}   -> Subs \X {0}
               [] op = "zrembyscore"                        -> {<<1, 1>>, <<1, 2>>, <<2, 2>>}
